@@ -25,6 +25,9 @@ def sh(cmd, **kw):
 def one(n):
     meta = json.load(open(f"{SEED}/{n}/meta.json"))
     prop = meta["property"]
+    if "neutralised" in (meta.get("rechecked") or {}).values():
+        # a later fix: commit in /repo closed the hole this change used: its own demonstration passes with the change applied
+        return n, prop, ["NEUTRALISED-BY-FIX"], ""
     wt = tempfile.mkdtemp(prefix=f"mx_{n}_"); os.rmdir(wt)
     out = tempfile.mkdtemp(prefix=f"mxout_{n}_")
     det, lines = [], []
@@ -71,5 +74,5 @@ if os.path.exists(p):
 for n, (prop, det) in res.items():
     mx[n] = f"{n} property={prop} detected_by: {' '.join(det)}".rstrip()
 open(p, "w").write("\n".join(mx[k] for k in sorted(mx)) + "\n")
-missed = [n for n, (p_, d) in res.items() if not any(x == p_ for x in d)]
+missed = [n for n, (p_, d) in res.items() if not any(x == p_ for x in d) and d != ["NEUTRALISED-BY-FIX"]]
 print(f"{len(res) - len(missed)}/{len(res)} detected by own property's check; missed: {missed}")
